@@ -396,11 +396,6 @@ def compare_direct(ob, mo):
     return None
 
 
-def container_expect(okind, nk):
-    """ what the nested routes do for a whole-value update of a container (model lines are built by the caller) """
-    return None
-
-
 # ---------------------------------------------------------------------------
 # canonical form of parameter objects (for spellings / input isolation)
 
@@ -612,14 +607,6 @@ def record_updates():
 def run_ctor(cls, par, nk, tok, probe=False):
     """ cls(par=value): old kind and effect at the moment update_pars applies it; whole-constructor outcome """
     quiet()
-    holder = {}
-    with record_updates() as calls:
-        # the value must fit the object that is there when update_pars runs: find it with a dry construction
-        try:
-            m_dry = cls() if probe else construct(cls)
-        except Exception:
-            return None
-    olds = [c['olds'] for c in calls]
     # old object at update time = the default defined by define_pars (first create=True call that has the key)
     old_default = None
     with record_updates() as calls0:
